@@ -537,10 +537,15 @@ def ao1(ctx, R):
     top = rf
     holder, ctor = rf, [c for c in walk_body(rf.node) if isinstance(c, ast.Call) and isinstance(c.func, (ast.Name, ast.Attribute)) and prog.resolve_class(rf.module, c.func) is cls]
     if not ctor:
+        from .region import region as _region
+        reg_ = [f_ for f_ in _region(ctx, rf, depth=3) if f_.cls is rf.cls]
         for g in sorted(rf.cls.methods.values(), key=lambda f: f.qual):
             sites = [c for c in walk_body(g.node) if isinstance(c, ast.Call) and isinstance(c.func, (ast.Name, ast.Attribute)) and prog.resolve_class(g.module, c.func) is cls]
-            if sites and g is not rf and calls_to(prog, rf, g.qual, rf.cls):
-                holder, ctor = g, sites
+            if sites and g is not rf and g in reg_:
+                # the method that calls it (with the loop over the objects) plays the part of _read_file
+                callers = [h for h in reg_ if calls_to(prog, h, g.qual, rf.cls)]
+                if callers:
+                    holder, ctor, top = g, sites, callers[0]
     if len(ctor) != 1:
         raise AnchorMissing("tdms.TdmsFile._read_file: one TdmsChannel(...) construction")
     c = ctor[0]
